@@ -12,6 +12,7 @@ from __future__ import annotations
 import keyword
 import os
 import re
+import warnings
 
 from hypothesis import strategies as st
 
@@ -238,6 +239,24 @@ def check(wrapped):
     if wrapped.get("force_table") and tabs:
         tgt = tabs[wrapped.get("force_idx", 0) % len(tabs)]
         tmap[tgt] = wrapped["force_table"]
+    if wrapped.get("table_like_own_cte") is not None and tabs:
+        # a table named like one of the query names THIS pipeline's SQL generates, in another letter case
+        # (SQLite resolves "EXTEND_1" and "extend_1" to the same thing)
+        try:
+            import data_algebra.SQLite
+
+            with warnings.catch_warnings():
+                warnings.simplefilter("ignore")
+                sql0 = data_algebra.SQLite.SQLiteModel().to_sql(spec.build(case))
+            ctes = sorted(set(re.findall(r'"([a-z_]+_[0-9]+)" AS \(', sql0)))
+        except Exception:  # noqa
+            ctes = []
+        if ctes:
+            k = int(wrapped["table_like_own_cte"])
+            name = ctes[k % len(ctes)]
+            name = name.upper() if (k // len(ctes)) % 2 == 0 else name.capitalize()
+            if name.lower() not in {v.lower() for v in tmap.values()}:
+                tmap[tabs[wrapped.get("force_idx", 0) % len(tabs)]] = name
     # recorded scratch-name captures (open findings): engines are not compared on cases using those names
     skip_engines = set()
     for engine, rules in CLOSED_NAMES.items():
@@ -340,7 +359,8 @@ def wrapped_cases(cfg, ordinary=False):
             "pool": st.lists(name_st, min_size=30, max_size=40),
             "suffix_pair": st.sampled_from([None, None] + SUFFIXES),
             "flip_order": st.booleans(),
-            "force_table": st.one_of(st.none(), st.sampled_from(case_variants)),
+            "force_table": st.one_of(st.none(), st.none(), st.sampled_from(case_variants)),
+            "table_like_own_cte": st.one_of(st.none(), st.none(), st.sampled_from(range(8))),
             "force_idx": st.sampled_from(range(4)),
         }
     )
